@@ -765,8 +765,10 @@ func nilListThroughFirstLast(p program, steps []step, doc string) bool {
 		if v == nil {
 			return true
 		}
-		rv := reflect.ValueOf(v)
-		return rv.Kind() == reflect.Slice && rv.IsNil()
+		if rv := reflect.ValueOf(v); rv.Kind() == reflect.Slice && rv.IsNil() {
+			return true
+		}
+		// this First/Last got a real list: look at the next one
 	}
 	return false
 }
